@@ -9,6 +9,7 @@ package c12
 import (
 	"encoding/json"
 	"fmt"
+	"go/ast"
 	"go/types"
 	"os"
 	"sort"
@@ -198,6 +199,7 @@ func decoyFile(pkg string) string {
 }
 
 type Case struct {
+	Std    string   `json:"standard_library_declaration,omitempty"`
 	Layout *Layout  `json:"layout,omitempty"`
 	Lines  []string `json:"comment_lines,omitempty"`
 	Marker string   `json:"markers,omitempty"`
@@ -286,6 +288,104 @@ func checkLayouts(c *core.Ctx, ls []Layout) {
 		if nontrivial {
 			c.Nontrivial(l.String())
 		}
+	}
+}
+
+// checkStdDocs: the same claims on packages of the standard library (no module, other comment styles), with an
+// oracle read from the syntax trees: the doc of a declaration is the comment group that ends on the line
+// directly above its name and is nobody's trailing comment; its trailing comment is the Comment field.
+func checkStdDocs(c *core.Ctx) {
+	dir := pipe.TempDir("c12std")
+	defer os.RemoveAll(dir)
+	_ = pipe.WriteTree(dir, pipe.Tree{"go.mod": pipe.GoMod(modPath, "1.24"), "x.go": "package x\n\nimport (\n\t_ \"net/url\"\n\t_ \"sort\"\n\t_ \"text/tabwriter\"\n)\n"})
+	realStdout := os.Stdout
+	null, _ := os.OpenFile(os.DevNull, os.O_WRONLY, 0)
+	os.Stdout = null
+	u, err := gengotypes.Load([]string{"."}, gengotypes.WithDir(dir))
+	os.Stdout = realStdout
+	null.Close()
+	if err != nil {
+		c.Internal("load: %v", err)
+		return
+	}
+	for _, path := range []string{"sort", "net/url", "text/tabwriter"} {
+		p := u.Package(path)
+		if p == nil {
+			c.Internal("package %s not loaded", path)
+			continue
+		}
+		fset := p.FileSet()
+		n := 0
+		for _, f := range p.Files() {
+			trailing := map[*ast.CommentGroup]bool{}
+			ast.Inspect(f, func(nd ast.Node) bool {
+				switch x := nd.(type) {
+				case *ast.Field:
+					trailing[x.Comment] = true
+				case *ast.ValueSpec:
+					trailing[x.Comment] = true
+				case *ast.TypeSpec:
+					trailing[x.Comment] = true
+				case *ast.ImportSpec:
+					trailing[x.Comment] = true
+				}
+				return true
+			})
+			byEndLine := map[int]*ast.CommentGroup{}
+			for _, g := range f.Comments {
+				if !trailing[g] {
+					byEndLine[fset.Position(g.End()).Line] = g
+				}
+			}
+			judge := func(id *ast.Ident, own *ast.CommentGroup) {
+				if id == nil || id.Name == "_" {
+					return
+				}
+				c.Eval(1)
+				c.Trans(2)
+				n++
+				line := fset.Position(id.Pos()).Line
+				var wantDoc []string
+				wantTags := map[string][]string{}
+				if g := byEndLine[line-1]; g != nil {
+					wantTags, wantDoc = refExtract(strings.Split(strings.TrimSuffix(g.Text(), "\n"), "\n"), "+@")
+				}
+				var wantComment []string
+				if own != nil {
+					wantComment = strings.Split(strings.TrimSuffix(own.Text(), "\n"), "\n")
+				}
+				tags, doc := p.Doc(id.Pos())
+				comment := p.Comment(id.Pos())
+				cs := Case{Std: path + "." + id.Name + " (" + fset.Position(id.Pos()).String() + ")"}
+				if !eqLines(doc, wantDoc) || !eqTags(tags, wantTags) {
+					c.Fail("", cs, "%s: Doc = %q tags %v, the comment group above the declaration says %q tags %v", cs.Std, doc, tags, wantDoc, wantTags)
+				}
+				if !eqLines(comment, wantComment) {
+					c.Fail("", cs, "%s: Comment = %q, the trailing comment in the syntax tree is %q", cs.Std, comment, wantComment)
+				}
+				if len(wantDoc) > 0 {
+					c.Nontrivial(cs.Std)
+				}
+			}
+			ast.Inspect(f, func(nd ast.Node) bool {
+				switch x := nd.(type) {
+				case *ast.FuncDecl:
+					return false // locals are not declarations in the property's sense
+				case *ast.TypeSpec:
+					judge(x.Name, x.Comment)
+				case *ast.ValueSpec:
+					if len(x.Names) == 1 {
+						judge(x.Names[0], x.Comment)
+					}
+				case *ast.Field:
+					if len(x.Names) == 1 {
+						judge(x.Names[0], x.Comment)
+					}
+				}
+				return true
+			})
+		}
+		c.Count("std_declarations_judged:"+path, n)
 	}
 }
 
@@ -486,6 +586,11 @@ func run(c *core.Ctx) {
 	}
 	c.Sample(Layout{Kind: 2, Docs: []int{1, 0, 5}, Trail: []int{1, 0, 1}}.String())
 
+	// declarations of standard-library packages
+	c.Bound("standard_library_packages_with_syntax_tree_oracle", []string{"sort", "net/url", "text/tabwriter"})
+	if c.Next() {
+		checkStdDocs(c)
+	}
 	// tag extraction
 	lineLen := c.Pick(5, 7)
 	c.Bound("tag_line_alphabet", tagAlphabet)
@@ -523,6 +628,10 @@ func replay(c *core.Ctx, raw json.RawMessage) {
 	var cs Case
 	if err := json.Unmarshal(raw, &cs); err != nil {
 		c.Internal("bad case: %v", err)
+		return
+	}
+	if cs.Std != "" {
+		checkStdDocs(c)
 		return
 	}
 	if cs.Layout != nil {
